@@ -24,7 +24,16 @@ class FuncInfo:
                 decos.append(d.id)
             elif isinstance(d, ast.Attribute):
                 decos.append(d.attr)
+            elif isinstance(d, ast.Call):
+                decos.append(ast.unparse(d.func).split(".")[-1])
+            else:
+                decos.append(ast.unparse(d))
         self.decorators = decos
+
+    def foreign_decorators(self):
+        """decorators whose effect is not "call the body" (caches, wrappers): the body is then not the behaviour"""
+        ok = {"staticmethod", "classmethod", "property", "setter", "abstractmethod", "override", "final"}
+        return [d for d in self.decorators if d not in ok]
 
     @property
     def key(self):
